@@ -71,7 +71,12 @@ def dict_groups_as_scatter(lists):
     G = None
     if v[0] == 'call' and v[1][0] == 'attr' and v[1][2] == 'get' and len(v[2]) == 2 and v[2][0] == b and v[2][1] == ('list', ()):
         G = v[1][1]
-    if G is None or not (G[0] == 'accum' and G[1] == ('dict', ()) and all(e[0] == 'appendidx' for e in G[2])):
+    def all_keys_dict(pre):
+        # {k: [] for k in range(1, n + 1)}: every agent has its (empty) list from the start
+        return pre[0] == 'dictcomp' and len(pre[1]) == 1 and pre[1][0][1] == TRUE and pre[2] == pre[1][0][0] and pre[3] == ('list', ()) and pre[1][0][0][3] == d
+    if G is None and v[0] == 'idx' and v[2] == b and v[1][0] == 'accum' and all_keys_dict(v[1][1]):
+        G = v[1]
+    if G is None or not (G[0] == 'accum' and (G[1] == ('dict', ()) or all_keys_dict(G[1])) and all(e[0] == 'appendidx' for e in G[2])):
         return lists
     def strip_int(k):
         while k[0] == 'call' and k[1] == S('int') and len(k[2]) == 1:
@@ -185,6 +190,29 @@ def check_spa_lists(rep, repo):
             proj = ent[0][3][0][0]
             if ent[0][2] != lec_id(proj):
                 problem = ('the set collects %s, not the lecturer of the project looked up in the project->lecturer table' % show(ent[0][2]).replace(show(proj), 'proj'), ent[0][2])
+    # (d) every lecturer number in order, kept iff it occurs among the lecturers of the ranked projects:
+    #     [lec for lec in range(1, n3 + 1) if lec in COLL],  COLL = a list / set of lookup(p) for p in own
+    def collection_of(t):
+        while t[0] == 'call' and t[1] in (S('set'), S('frozenset'), S('list'), S('tuple'), S('sorted')) and len(t[2]) == 1:
+            t = t[2][0]
+        if t[0] in ('comp', 'setcomp') and len(t[1]) == 1 and t[1][0][0][3] == own and t[1][0][1] == TRUE:
+            return t[1][0][0], t[2]
+        if t[0] == 'accum' and t[1] in (CALL(S('set'), []), ('list', ()), ('set', ())) and len(t[2]) == 1 and t[2][0][0] in ('setadd', 'append') \
+                and len(t[2][0][3]) == 1 and t[2][0][3][0][0][3] == own and t[2][0][3][0][1] == TRUE:
+            return t[2][0][3][0][0], t[2][0][2]
+        return None
+    if kind is None and c[0] == 'comp' and len(c[1]) == 1 and c[2] == c[1][0][0]:
+        lb, g = c[1][0]
+        d_ = lb[3]
+        full_range = d_[0] == 'call' and d_[1] == S('range') and len(d_[2]) == 2 and d_[2][0] == C(1) and d_[2][1] in (BIN('Add', S(f.params[3]), C(1)), BIN('Add', C(1), S(f.params[3]))) \
+            if len(f.params) > 3 else False
+        if full_range and g[0] == 'cmp' and g[1] == 'In' and g[2] == lb:
+            co = collection_of(g[3])
+            if co is not None:
+                kind = 'membership over all lecturers'
+                proj, v_ = co
+                if v_ != lec_id(proj):
+                    problem = ('the collection holds %s, not the lecturer of the project looked up in the project->lecturer table' % show(v_).replace(show(proj), 'proj'), v_)
     # (c) membership-guarded append:  if lec not in lst: lst.append(lec)
     if kind is None and c[0] == 'comp' and len(c[1]) == 1 and c[1][0][0][3] == own:
         proj, g = c[1][0]
